@@ -54,13 +54,15 @@ Shapes ==
     \* a struct with many fields: Y at position 130, Base embedded at position 131 (W promoted from there; X is also a direct field)
     S12 |-> [fields |-> <<[n |-> "X", v |-> VI(41)]>> \o [i \in 1..128 |-> [n |-> "Fill", v |-> VI(i)]] \o <<[n |-> "Y", v |-> VS(<<52>>)], [n |-> "Base", emb |-> "Base"]>>, methods |-> {}],
     \* a field whose name is not ASCII (the harness spells "Uelan" as E-acute l a n; maps have the key e-acute l a n, "uelan")
-    S13 |-> [fields |-> <<[n |-> "Uelan", v |-> VS(<<101>>)], [n |-> "X", v |-> VI(17)]>>, methods |-> {}],
+    S13 |-> [fields |-> <<[n |-> "Uelan", v |-> VS(<<101>>)], [n |-> "X", v |-> VI(17)], [n |-> "Uviet", v |-> VS(<<118>>)]>>,
+             \* ("Uviet": a name whose first letter is upper case and three bytes long; "Uvietm": a method of such a name)
+             methods |-> {[n |-> "Uvietm", v |-> VS(<<86>>), ptr |-> FALSE]}],
     \* an unnamed struct type (struct{ S6; Q int }) that embeds S6 by value: S6's fields and methods are promoted
     S14 |-> [fields |-> <<[n |-> "S6", emb |-> "S6"], [n |-> "Q", v |-> VI(5)]>>,
              methods |-> {[n |-> "Name", v |-> VS(<<109>>), ptr |-> FALSE], [n |-> "PName", v |-> VS(<<112>>), ptr |-> TRUE], [n |-> "AName", v |-> VS(<<97>>), ptr |-> TRUE]}],
     S9 |-> [fields |-> <<[n |-> "X", v |-> VI(91)]>>, methods |-> {[n |-> "Cust", v |-> [t |-> "embedded", sh |-> "Base"], ptr |-> TRUE]}] ]
 ShapeNames == {"S1", "S2", "S3", "S4", "S5", "S6", "S7", "S10", "S11", "S12", "S13", "S14"}
-MapKinds == {"any", "mss", "msi", "mii"}        \* mii: map[interface{}]interface{}
+MapKinds == {"any", "mss", "msi", "mii", "mnk"}        \* mii: map[interface{}]interface{}; mnk: map[LabelKey]string with type LabelKey string
 \* objects: a struct value, a pointer to it, or a map of one of three Go map types
 Objects == {[k |-> "struct", sh |-> sn, ptr |-> p, embnil |-> FALSE] : sn \in ShapeNames \cap ShapeSet, p \in BOOLEAN}
            \cup {[k |-> "struct", sh |-> "S7", ptr |-> p, embnil |-> TRUE] : p \in (IF "S7" \in ShapeSet THEN BOOLEAN ELSE {})}
@@ -68,9 +70,9 @@ Objects == {[k |-> "struct", sh |-> sn, ptr |-> p, embnil |-> FALSE] : sn \in Sh
            \cup {[k |-> "map", g |-> g] : g \in MapKinds \cap ShapeSet}
            \cup {[k |-> "map", g |-> g, ptr |-> TRUE] : g \in {"any", "mss"} \cap ShapeSet}        \* a pointer to a map
 \* (the untyped map also has the keys "0" and "" -- never looked up themselves: an absent key must not fall back to them)
-MapVal(g, n) == CASE n = "X" -> (IF g = "mss" THEN VS(<<120>>) ELSE VI(8)) [] n = "Y" -> (IF g = "mss" THEN VS(<<121>>) ELSE VI(9))
-                    [] n = "uelan" -> (IF g = "mss" THEN VS(<<117>>) ELSE VI(3)) [] OTHER -> Null
-AttrNames == {"X", "Y", "Z", "W", "Q", "K", "Name", "PName", "AName", "ARename", "hidden", "nosuch", "x", "name", "Cust", "V", "U", "Uelan", "uelan"} \cap NameSet    \* names are case-sensitive
+MapVal(g, n) == CASE n = "X" -> (IF g \in {"mss", "mnk"} THEN VS(<<120>>) ELSE VI(8)) [] n = "Y" -> (IF g \in {"mss", "mnk"} THEN VS(<<121>>) ELSE VI(9))
+                    [] n = "uelan" -> (IF g \in {"mss", "mnk"} THEN VS(<<117>>) ELSE VI(3)) [] OTHER -> Null
+AttrNames == {"X", "Y", "Z", "W", "Q", "K", "Name", "PName", "AName", "ARename", "hidden", "nosuch", "x", "name", "Cust", "V", "U", "Uelan", "uelan", "Uviet", "Uvietm"} \cap NameSet    \* names are case-sensitive
 
 IsExported(n) == n \notin {"hidden"}
 
